@@ -73,6 +73,10 @@ func isLockCall(in ssa.Instruction, spec guardSpec, method string) bool {
 	if !ok {
 		return false
 	}
+	if cc.Common().IsInvoke() {
+		// the mutex kept behind a sync.Locker-shaped interface in the same field
+		return cc.Common().Method.Name() == method && mutexField(cc.Common().Value, spec.lock)
+	}
 	cal := calleeOf(cc.Common())
 	if cal == nil || cal.Name() != method || !strings.HasPrefix(qualName(cal), "(*sync.Mutex)") && !strings.HasPrefix(qualName(cal), "(*sync.RWMutex)") {
 		return false
@@ -757,6 +761,9 @@ func c14LockInventory(c *Ctx) {
 					ft = p.Elem()
 				}
 				s := types.TypeString(ft, nil)
+				if s == "sync.Locker" {
+					s = "sync.Mutex" // a mutex kept behind the Locker interface is still that struct's lock
+				}
 				if s != "sync.Mutex" && s != "sync.RWMutex" {
 					continue
 				}
@@ -1243,7 +1250,7 @@ func c14Escape(c *Ctx) {
 			continue
 		}
 		nFuncs++
-		ev := NewEvaluator(c.P, EvalConfig{MaxVisits: 2, MaxPaths: 5000})
+		ev := NewEvaluator(c.P, EvalConfig{MaxVisits: 2, MaxPaths: 40000})
 		ps := ev.Run(fn)
 		if ev.Err != nil {
 			c.Undecided(c.fn(fn), c.P.FuncPos(fn), "evaluation failed: "+ev.Err.Error(), "")
@@ -1550,7 +1557,7 @@ func c14LiveReads(c *Ctx) {
 			}
 		}
 	}
-	c.Floor("unlocked getter calls in the library", n, 2)
+	c.Floor("unlocked getter calls in the library", n, 1)
 	if ok {
 		c.Ok("library#live-reads", "", fmt.Sprintf("%d internal getter calls, all on the reviewed list", n))
 	}
